@@ -1,6 +1,6 @@
 // C06: oblivious transfer delivers exactly the chosen label.
 //
-// Three units:
+// Units:
 //
 //	iknp       raw extension: IKNPSender.Send/IKNPReceiver.Receive (both
 //	           adversary modes) and SendBits/ReceiveBits, several batches
@@ -11,6 +11,10 @@
 //	           oracle result[i] == wires[i].L{choice[i]}
 //	cohelpers  GenerateCOSenderSetup / BuildCOChoices / EncryptCOCiphertexts
 //	           / DecryptCOCiphertexts on P-224, P-256, P-384, P-521
+//	sizes      every batch size 1..N of the raw extension (TestSizes)
+//	cosizes    deterministic size sweep of the base OTs: CO, the helper
+//	           pipeline and RSA on both sides of 128/256/512/1024
+//	           (TestCOSizes; its cases are ot / cohelpers cases)
 package c06
 
 import (
@@ -389,13 +393,23 @@ func genOCase(t *rapid.T) OCase {
 	cs.Kind = rapid.SampledFrom([]string{"rsa", "co", "co", "co", "cot", "cot",
 		"cot", "cot", "cot", "rot", "rot", "rot", "rot", "rot"}).Draw(t, "kind")
 	cs.Seed = rapid.Uint64().Draw(t, "seed")
+	// Base OTs (measured: CO about 0.2 ms per wire, RSA-1024 1.3 ms,
+	// RSA-2048 9 ms): mostly small batches, a fraction of large ones on
+	// both sides of 128/256/512/1024 (see drawBaseN).  RSA-2048 stays
+	// small here; the cosizes unit runs it once at n=129.
 	maxN, maxB := 3000, 5
+	small, large, tenths := 0, 0, 0
 	switch cs.Kind {
 	case "rsa":
 		cs.KeyBits = rapid.SampledFrom([]int{1024, 1024, 1024, 2048}).Draw(t, "keybits")
-		maxN, maxB = 12, 2
+		maxB = 2
+		small, large, tenths = 12, 12, 0
+		if cs.KeyBits == 1024 {
+			large, tenths = 300, 2
+		}
 	case "co":
-		maxN, maxB = 140, 3
+		maxB = 3
+		small, large, tenths = 140, 1100, 3
 	default:
 		cs.Base = rapid.SampledFrom([]string{"ideal", "ideal", "ideal", "co"}).Draw(t, "base")
 		cs.Mal = rapid.Bool().Draw(t, "malicious")
@@ -404,7 +418,11 @@ func genOCase(t *rapid.T) OCase {
 	nb := rapid.IntRange(1, maxB).Draw(t, "nbatches")
 	for i := 0; i < nb; i++ {
 		var b OBatch
-		b.N = drawN(t, maxN)
+		if small > 0 {
+			b.N = drawBaseN(t, small, large, tenths)
+		} else {
+			b.N = drawN(t, maxN)
+		}
 		b.Ch = drawChoice(t, b.N)
 		if i > 0 && (cs.Kind == "co" || cs.Shared) {
 			b.Reinit = rapid.IntRange(0, 2).Draw(t, "reinit") == 0
@@ -561,6 +579,18 @@ func runOT(cs OCase) ev.Outcome {
 		cl.add(fmt.Sprintf("rsa:keybits=%d", cs.KeyBits))
 	}
 	nt := nb > 1
+	if cs.Kind == "co" || cs.Kind == "rsa" {
+		ns := make([]int, nb)
+		for i, b := range cs.Batches {
+			ns[i] = b.N
+			for _, s := range baseSizeClasses(b.N) {
+				cl.add(cs.Kind + ":" + s)
+			}
+		}
+		for _, s := range baseSeqClasses(ns) {
+			cl.add(cs.Kind + ":" + s)
+		}
+	}
 	for i, b := range cs.Batches {
 		cl.add("choice=" + b.Ch.Class)
 		for _, s := range sizeClasses(b.N) {
@@ -622,14 +652,23 @@ func genHCase(t *rapid.T) HCase {
 	var cs HCase
 	cs.Curve = rapid.SampledFrom([]string{"P-224", "P-256", "P-256", "P-384", "P-521"}).Draw(t, "curve")
 	cs.Seed = rapid.Uint64().Draw(t, "seed")
-	maxN := 70
-	if cs.Curve == "P-384" || cs.Curve == "P-521" {
-		maxN = 20
+	// Measured per wire (setup + choices + encrypt + decrypt): P-256 0.22 ms,
+	// P-224 0.5 ms, P-384 1.4 ms, P-521 3.7 ms.  Large batches on both sides
+	// of 128/256/512/1024 are a fraction of the cases, bounded per curve.
+	// P-521 stays below 131 wires here; the cosizes unit runs it at 257.
+	small, large, tenths := 70, 1100, 3
+	switch cs.Curve {
+	case "P-224":
+		small, large, tenths = 70, 520, 2
+	case "P-384":
+		small, large, tenths = 20, 260, 1
+	case "P-521":
+		small, large, tenths = 20, 130, 1
 	}
 	nb := rapid.IntRange(1, 3).Draw(t, "nbatches")
 	for i := 0; i < nb; i++ {
 		var b HBatch
-		b.N = drawN(t, maxN)
+		b.N = drawBaseN(t, small, large, tenths)
 		b.Ch = drawChoice(t, b.N)
 		b.Fresh = i == 0 || rapid.Bool().Draw(t, "fresh")
 		cs.Batches = append(cs.Batches, b)
@@ -697,10 +736,21 @@ func runHelpers(cs HCase) ev.Outcome {
 		for _, s := range sizeClasses(b.N) {
 			cl.add(s)
 		}
+		bc := baseSizeClasses(b.N)
+		cl.add(bc...)
+		cl.add(cs.Curve + ":" + bc[0])
+		if b.N > 256 && !(b.Fresh || i == 0) {
+			cl.add("setup-reused-for-large")
+		}
 		if b.N > 1 {
 			nt = true
 		}
 	}
+	ns := make([]int, len(cs.Batches))
+	for i, b := range cs.Batches {
+		ns[i] = b.N
+	}
+	cl.add(baseSeqClasses(ns)...)
 	out := ev.OK(nt, cl.list...)
 	out.Evals = len(cs.Batches)
 	return out
@@ -708,6 +758,162 @@ func runHelpers(cs HCase) ev.Outcome {
 
 func TestCOHelpers(t *testing.T) {
 	ev.Check(t, ev.Get(prop), "cohelpers", genHCase, runHelpers)
+}
+
+// ---------------------------------------------------------------------------
+// Unit cosizes: deterministic size sweep of the base OTs.
+//
+// Every size of baseBoundaryN (both sides of 128, 256, 512, 1024, and 300)
+// runs once per pass through CO.Send/Receive and through the helper
+// pipeline on P-256, plus sequences on one instance whose later batch is
+// large (with and without re-initialisation / sender-setup reuse), the
+// other curves at the sizes they can afford, RSA-1024 around 128 and 256 and
+// RSA-2048 once at 129.  Seeds and choice vectors derive from the run's seed
+// and the pass number.  The cases are ordinary "ot" / "cohelpers" cases, so a
+// failure replays through the same run functions.
+
+var sweepChoice = []string{"random", "one", "zero", "alt0", "random", "alt1", "random"}
+
+func sweepCh(k int, seed uint64) Choice {
+	c := Choice{Class: sweepChoice[k%len(sweepChoice)]}
+	if c.Class == "random" {
+		c.Seed = seed ^ 0x5bd1e995
+	}
+	return c
+}
+
+func sweepSeed(seed uint64, pass, i int) uint64 {
+	return seed*0x9e3779b97f4a7c15 + uint64(pass)*1000003 + uint64(i)
+}
+
+func sweepSizes(thorough bool) (all, large []int) {
+	all = append(all, baseBoundaryN...)
+	if thorough {
+		all = append(all, 1535, 1536, 1537, 2047, 2048, 2049)
+	}
+	for _, n := range all {
+		if n > 256 {
+			large = append(large, n)
+		}
+	}
+	return
+}
+
+func sweepOCases(seed uint64, pass int, thorough bool) []OCase {
+	var res []OCase
+	add := func(kind string, keyBits int, bs ...OBatch) {
+		i := len(res)
+		sd := sweepSeed(seed, pass, i)
+		for j := range bs {
+			bs[j].Ch = sweepCh(i+j+pass, sd+uint64(j))
+		}
+		res = append(res, OCase{Kind: kind, KeyBits: keyBits, Seed: sd, Batches: bs})
+	}
+	all, large := sweepSizes(thorough)
+	for _, n := range all {
+		add("co", 0, OBatch{N: n})
+	}
+	// Sequences on one initialised CO pair with a large later batch.
+	smalls := []int{5, 64, 129, 256, 1}
+	for j := 0; j < 4; j++ {
+		first := smalls[(pass+j)%len(smalls)]
+		big := large[(pass*4+j)%len(large)]
+		switch j {
+		case 0:
+			add("co", 0, OBatch{N: first}, OBatch{N: big})
+		case 1:
+			add("co", 0, OBatch{N: first}, OBatch{N: big, Reinit: true}, OBatch{N: 1})
+		case 2:
+			add("co", 0, OBatch{N: big}, OBatch{N: first}, OBatch{N: 257 + pass, Reinit: true})
+		default:
+			add("co", 0, OBatch{N: big}, OBatch{N: big})
+		}
+	}
+	for _, n := range []int{127, 128, 129, 255, 256, 257} {
+		add("rsa", 1024, OBatch{N: n})
+	}
+	add("rsa", 1024, OBatch{N: 3 + pass}, OBatch{N: 130 + pass})
+	add("rsa", 2048, OBatch{N: 129 - pass%3})
+	return res
+}
+
+func sweepHCases(seed uint64, pass int, thorough bool) []HCase {
+	var res []HCase
+	add := func(curve string, bs ...HBatch) {
+		i := len(res)
+		sd := sweepSeed(seed, pass, 1000+i)
+		for j := range bs {
+			bs[j].Ch = sweepCh(i+j+pass+3, sd+uint64(j))
+			if j == 0 {
+				bs[j].Fresh = true
+			}
+		}
+		res = append(res, HCase{Curve: curve, Seed: sd, Batches: bs})
+	}
+	all, large := sweepSizes(thorough)
+	for _, n := range all {
+		add("P-256", HBatch{N: n})
+	}
+	big := func(j int) int { return large[(pass*3+j)%len(large)] }
+	add("P-256", HBatch{N: 3 + pass}, HBatch{N: big(0)})
+	add("P-256", HBatch{N: 129}, HBatch{N: big(1)}, HBatch{N: 2, Fresh: true})
+	add("P-256", HBatch{N: big(2)}, HBatch{N: 257 + pass}, HBatch{N: 256, Fresh: true})
+	for _, n := range []int{127, 128, 129, 255, 256, 257, 513} {
+		add("P-224", HBatch{N: n})
+	}
+	add("P-224", HBatch{N: 2 + pass}, HBatch{N: 257 + pass})
+	// P-384 / P-521 are 6x / 17x slower than P-256: one size next to 128
+	// and one next to 256 per pass (pass 0: 129 and 257).
+	off := (pass+2)%3 - 1
+	for _, c := range []string{"P-384", "P-521"} {
+		add(c, HBatch{N: 128 + off})
+		add(c, HBatch{N: 256 + off})
+	}
+	return res
+}
+
+// sweepClasses marks the classes of a sweep case ("sweep/...") so the
+// evidence keeps the distribution of the generated cases of the ot and
+// cohelpers units apart from the deterministic sweep.
+func sweepClasses(o ev.Outcome) ev.Outcome {
+	cl := make([]string, len(o.Classes))
+	for i, c := range o.Classes {
+		cl[i] = "sweep/" + c
+	}
+	o.Classes = cl
+	return o
+}
+
+func TestCOSizes(t *testing.T) {
+	col := ev.Get(prop)
+	passes := col.N(1, 4)
+	shard, nshards := ev.Shard()
+	seed := uint64(col.Seed)
+	all, _ := sweepSizes(col.Thorough())
+	col.Note("base-OT size sweep: %d pass(es) over n in %v through CO.Send/Receive and the P-256 helper pipeline, sequences with a large later batch, P-224/P-384/P-521 and RSA-1024/2048 at bounded sizes", passes, all)
+	k := 0
+	mine := func() bool {
+		k++
+		return (k-1)%nshards == shard
+	}
+	ev.Each(t, col, "ot", func(yield func(OCase) bool) {
+		for p := 0; p < passes; p++ {
+			for _, cs := range sweepOCases(seed, p, col.Thorough()) {
+				if mine() {
+					yield(cs)
+				}
+			}
+		}
+	}, func(cs OCase) ev.Outcome { return sweepClasses(runOT(cs)) })
+	ev.Each(t, col, "cohelpers", func(yield func(HCase) bool) {
+		for p := 0; p < passes; p++ {
+			for _, cs := range sweepHCases(seed, p, col.Thorough()) {
+				if mine() {
+					yield(cs)
+				}
+			}
+		}
+	}, func(cs HCase) ev.Outcome { return sweepClasses(runHelpers(cs)) })
 }
 
 func TestReplay(t *testing.T) { ev.Replay(t, ev.Get(prop)) }
